@@ -21,7 +21,7 @@ LEVEL = 'fault_enumeration'
 TIERS = {
     'quick': {'runs': 160, 'block': 5, 'run_timeout': 300, 'wall_cap': 900,
               'det_sample': 3},
-    'thorough': {'runs': 1920, 'block': 20, 'run_timeout': 600,
+    'thorough': {'runs': 640, 'block': 20, 'run_timeout': 600,
                  'wall_cap': 7200, 'det_sample': 6},
 }
 RULE = ('scenario = seeded hive dataset (0-2 partition columns, prefix history '
